@@ -310,7 +310,17 @@ def check_c18(prop, tier, seed):
     missing = [r for r in pr["results"] if r["expect"] in ("missing-sig", "missing-template")]
     unsafe_emitted = [d for d in mac.get("diffs", []) if "UNSAFE" in d.get("impl", "")]
     rc = 0
-    if unsound or unsafe_emitted:
+    if twins and not (unsound or unsafe_emitted):
+        # a SOUND program (the twin of an unsound one, or a handle Send/Sync/Copy requirement) is
+        # rejected: the property demands that it compiles
+        r = twins[0]
+        src = os.path.join(CACHE, "rustc-probes", "src", "bin", r["name"] + ".rs")
+        data = {"property": prop, "kind": "rustc-probe", "class": "sound-program-rejected", "name": r["name"], "why": r["why"], "expected": "must compile",
+                "observed": f"does not compile: {r.get('errors')}", "program": open(src).read() if os.path.exists(src) else None, "must_compile": True}
+        path = write_replay(prop, "sound-program-rejected", data)
+        print(f"VIOLATION property={prop} replay={path}")
+        rc = 1
+    elif unsound or unsafe_emitted:
         if unsound:
             r = unsound[0]
             src = os.path.join(CACHE, "rustc-probes", "src", "bin", r["name"] + ".rs")
@@ -384,6 +394,9 @@ def normalise(line, events_differ, arity_differ):
     if arity_differ:
         summ = " ".join(summ.split()[:5])
         obs = re.sub(r" oc=\S+", "", obs)
+        if k == "cmp":
+            # one entry per archetype: compare the five archetypes both worlds have
+            obs = re.sub(r"t=\[([^\]]*)\]", lambda m: "t=[" + " ".join(m.group(1).split()[:5]) + "]", obs)
     return f"{op} => {obs} # {summ}"
 
 
@@ -413,13 +426,25 @@ def cross_config(base, other, profile, seed, nseq, maxops):
             la = [l.rstrip("\n") for l in open(sb["trace"], errors="replace") if " => " in l or l.startswith("seq ")]
             lb = [l.rstrip("\n") for l in open(tf, errors="replace") if " => " in l or l.startswith("seq ")]
             seqname = "?"
+            dbg_differs = engine.CONFIGS[base][0] != engine.CONFIGS[other][0]
+            tainted = False
             for x, y in zip(la, lb):
                 if x.startswith("seq "):
                     seqname = x
+                    tainted = False
                     continue
                 nx, ny = normalise(x, ev, ar), normalise(y, ev, ar)
                 res["lines"] += 1
-                if nx != ny:
+                if nx != ny and not tainted:
+                    if dbg_differs and ("DebugAssert" in x or "DebugAssert" in y):
+                        # the documented effect of debug assertions on FORGED keys (clean panic vs. an
+                        # answer; for unchecked typed conversions the known finding F3): from here on
+                        # the two runs legitimately hold different variables.  Assertions tripped by
+                        # handles the world issued itself are judged by the oracle
+                        # `debug-assert-on-issued-handle` on the debug trace.
+                        tainted = True
+                        res["debug_assert_lines"] = res.get("debug_assert_lines", 0) + 1
+                        continue
                     res["diffs"].append({"seq": seqname, "base": x[:600], "other": y[:600]})
                     if len(res["diffs"]) >= 5:
                         break
@@ -452,7 +477,7 @@ def check_c19(prop, tier, seed):
     cross_bad = [c for c in crosses if c["diffs"] or c["crashed"]]
     extra = {"configurations": cfgs, "cross_configuration_pairs": [f"{c['base']} vs {c['other']} on {c['profile']}: {c['lines']} lines, {len(c['diffs'])} differences" for c in crosses],
              "cross_configuration_lines_compared": sum(c["lines"] for c in crosses)}
-    if cross_bad and not any(s.get("mismatches") or s.get("oracle_hits") for s in streams):
+    if cross_bad and not any(h for s in streams for h in s.get("oracle_hits", []) if not is_known(h, s["config"]) and h["property"] not in ("MEMSAFE",)):
         # two builds of the implementation disagree where the features document no difference:
         # that IS a concrete failing input for this property
         c = cross_bad[0]
